@@ -277,6 +277,10 @@ def check_usage(ctx):
     for nm, body in (("FeoxStore::flush_all", ctx.fn("FeoxStore::flush_all", inst)), ("impl Drop for FeoxStore", drop_impl(ctx, inst, "FeoxStore"))):
         if body is None:
             continue
+        # the place where the metadata is stamped and written: this body, or the helper it delegates to
+        from rules.common import locate_call
+        body, _wm = locate_call(ctx.prog, body, "DiskIO::write_store_metadata")
+        ctx.check(bool(_wm), inst, "anchor", body.path, "%s reaches the metadata write (write_store_metadata site found: %d)" % (nm, len(_wm)), None)
         for field, stat in (("total_records", "record_count"), ("total_size", "disk_usage")):
             ws = [n for n in body.nodes if n.kind == "assign" and n.ev["dst"]["p"] and isinstance(n.ev["dst"]["p"][-1], dict)
                   and n.ev["dst"]["p"][-1].get("n") == field and (n.ev["dst"]["p"][-1].get("adt") or "").endswith("Metadata")]
